@@ -823,3 +823,22 @@ Qed.
 
 Lemma valid_all_sound ts : forallb valid_telegramb ts = true -> Forall valid_telegram ts.
 Proof. intros H. apply Forall_forall. intros t Ht. rewrite forallb_forall in H. apply valid_telegramb_sound, H, Ht. Qed.
+
+(* ------------------------------------------------------------- a transmit call that sends nothing
+   (transmit_telegram whose closure returns None: transmit_data with length 0) changes neither
+   the bus nor what receive_data shows to the PHY that made the call *)
+Lemma sim_idle_transmit_noop bus p bus' p' : sim_transmit bus p [] = Ok (bus', p') ->
+  bus' = bus /\ p' = p /\ phy_view (sim_phy bus') p' = phy_view (sim_phy bus) p.
+Proof.
+  unfold sim_transmit. cbn [length]. destruct (Nat.ltb_spec sim_tx_buffer 0) as [H|_]; [unfold sim_tx_buffer in H; lia|].
+  unfold enqueue. destruct (is_active bus) as [[a|]| |]; cbn [bind]; try discriminate.
+  intros E. injection E as <- <-. rewrite Nat.add_0_r. destruct p as [c n]. cbn [ph_cursor ph_name].
+  repeat split; reflexivity.
+Qed.
+
+(* it is accepted exactly when nobody is sending *)
+Lemma sim_idle_transmit_ok bus p : is_active bus = Ok None -> sim_transmit bus p [] = Ok (bus, p).
+Proof.
+  intros A. unfold sim_transmit. cbn [length]. destruct (Nat.ltb_spec sim_tx_buffer 0) as [H|_]; [unfold sim_tx_buffer in H; lia|].
+  unfold enqueue. rewrite A. cbn [bind]. rewrite Nat.add_0_r. destruct p; reflexivity.
+Qed.
